@@ -11,13 +11,13 @@ open Rosmar Rosmar.Sql
 
 /-- The statement `WriteCas` chooses, as the Go `if` chain chooses it. -/
 def wcasExec (o : WOpts) (cas : Nat) (wasTomb : Bool) (ps : Env) (old : Option SRow) : Res :=
-  if o.append then Collection_WriteCas_UPDATE_0.exec ps old
+  if o.append then upd_cas_exp_isJSON_revSeqNo_tombstone_value_xattrs__by_cas_collection_key_valueSet.exec ps old
   else if o.addOnly ∨ cas = 0 then
     (if ¬ wasTomb ∧ cas ≠ 0 then
-        { Collection_WriteCas_INSERT_0 with
-          conflict := Collection_WriteCas_INSERT_0.conflict.map (fun p => (p.1, .and p.2 Collection_WriteCas_AND_0)) }
-      else Collection_WriteCas_INSERT_0).exec ps old
-  else Collection_WriteCas_UPDATE_1.exec ps old
+        { ups_cas_collection_exp_isJSON_key_revSeqNo_tombstone_value__set_cas_exp_isJSON_revSeqNo_tombstone_value_xattrsN__if_tombstoneIs1 with
+          conflict := ups_cas_collection_exp_isJSON_key_revSeqNo_tombstone_value__set_cas_exp_isJSON_revSeqNo_tombstone_value_xattrsN__if_tombstoneIs1.conflict.map (fun p => (p.1, .and p.2 frag_and_cas)) }
+      else ups_cas_collection_exp_isJSON_key_revSeqNo_tombstone_value__set_cas_exp_isJSON_revSeqNo_tombstone_value_xattrsN__if_tombstoneIs1).exec ps old
+  else upd_cas_exp_isJSON_revSeqNo_tombstone_value_xattrs__by_cas_collection_key.exec ps old
 
 def wcasEnv (cid : Nat) (k : String) (exp cas : Nat) (val : Option String) (o : WOpts) (newCas now : Nat) (old : Option Row) : Env :=
   env [("$value", encV val), ("$cas", .int newCas), ("c.id", .int cid), ("key", .text k), ("cas", .int cas),
@@ -36,7 +36,7 @@ theorem tie_wcas (cid : Nat) (k : String) (exp cas : Nat) (val : Option String) 
     have hc : cas = 0 := by simpa using hreach
     subst hc
     cases val <;> cases ha : o.append <;> cases hr : o.raw <;> cases hao : o.addOnly <;>
-      simp [wcasExec, wcasEnv, wcasRow, ha, hr, hao, Collection_WriteCas_UPDATE_0, Collection_WriteCas_INSERT_0, Update.exec,
+      simp [wcasExec, wcasEnv, wcasRow, ha, hr, hao, upd_cas_exp_isJSON_revSeqNo_tombstone_value_xattrs__by_cas_collection_key_valueSet, ups_cas_collection_exp_isJSON_key_revSeqNo_tombstone_value__set_cas_exp_isJSON_revSeqNo_tombstone_value_xattrsN__if_tombstoneIs1, Update.exec,
         Upsert.exec, insertRow, SRow.set, E.eval, env, enc, encV, encX, ofBool, defaultRow]
   | some r =>
     obtain ⟨rowid, value, rcas, rexp, risJSON, xattrs, tomb, rev⟩ := r
@@ -45,22 +45,22 @@ theorem tie_wcas (cid : Nat) (k : String) (exp cas : Nat) (val : Option String) 
       by_cases hz : rcas = 0
       · subst hz
         cases val <;> cases ha : o.append <;> cases hr : o.raw <;> cases hao : o.addOnly <;> cases tomb <;> cases value <;>
-          simp [wcasExec, wcasEnv, wcasRow, ha, hr, hao, Collection_WriteCas_UPDATE_0, Collection_WriteCas_UPDATE_1,
-            Collection_WriteCas_INSERT_0, Collection_WriteCas_AND_0, Update.exec, Upsert.exec, applySets, SRow.set, SRow.get, E.eval,
+          simp [wcasExec, wcasEnv, wcasRow, ha, hr, hao, upd_cas_exp_isJSON_revSeqNo_tombstone_value_xattrs__by_cas_collection_key_valueSet, upd_cas_exp_isJSON_revSeqNo_tombstone_value_xattrs__by_cas_collection_key,
+            ups_cas_collection_exp_isJSON_key_revSeqNo_tombstone_value__set_cas_exp_isJSON_revSeqNo_tombstone_value_xattrsN__if_tombstoneIs1, frag_and_cas, Update.exec, Upsert.exec, applySets, SRow.set, SRow.get, E.eval,
             env, enc, encV, encX, ofBool, SV.truthy, SV.same, SV.asText]
       · cases val <;> cases ha : o.append <;> cases hr : o.raw <;> cases hao : o.addOnly <;> cases tomb <;> cases value <;>
-          simp [wcasExec, wcasEnv, wcasRow, ha, hr, hao, hz, Collection_WriteCas_UPDATE_0, Collection_WriteCas_UPDATE_1,
-            Collection_WriteCas_INSERT_0, Collection_WriteCas_AND_0, Update.exec, Upsert.exec, applySets, SRow.set, SRow.get, E.eval,
+          simp [wcasExec, wcasEnv, wcasRow, ha, hr, hao, hz, upd_cas_exp_isJSON_revSeqNo_tombstone_value_xattrs__by_cas_collection_key_valueSet, upd_cas_exp_isJSON_revSeqNo_tombstone_value_xattrs__by_cas_collection_key,
+            ups_cas_collection_exp_isJSON_key_revSeqNo_tombstone_value__set_cas_exp_isJSON_revSeqNo_tombstone_value_xattrsN__if_tombstoneIs1, frag_and_cas, Update.exec, Upsert.exec, applySets, SRow.set, SRow.get, E.eval,
             env, enc, encV, encX, ofBool, SV.truthy, SV.same, SV.asText]
     · by_cases hz : cas = 0
       · subst hz
         cases val <;> cases ha : o.append <;> cases hr : o.raw <;> cases hao : o.addOnly <;> cases tomb <;> cases value <;>
-          simp [wcasExec, wcasEnv, wcasRow, ha, hr, hao, hcas, Collection_WriteCas_UPDATE_0, Collection_WriteCas_UPDATE_1,
-            Collection_WriteCas_INSERT_0, Collection_WriteCas_AND_0, Update.exec, Upsert.exec, applySets, SRow.set, SRow.get, E.eval,
+          simp [wcasExec, wcasEnv, wcasRow, ha, hr, hao, hcas, upd_cas_exp_isJSON_revSeqNo_tombstone_value_xattrs__by_cas_collection_key_valueSet, upd_cas_exp_isJSON_revSeqNo_tombstone_value_xattrs__by_cas_collection_key,
+            ups_cas_collection_exp_isJSON_key_revSeqNo_tombstone_value__set_cas_exp_isJSON_revSeqNo_tombstone_value_xattrsN__if_tombstoneIs1, frag_and_cas, Update.exec, Upsert.exec, applySets, SRow.set, SRow.get, E.eval,
             env, enc, encV, encX, ofBool, SV.truthy, SV.same, SV.asText]
       · cases val <;> cases ha : o.append <;> cases hr : o.raw <;> cases hao : o.addOnly <;> cases tomb <;> cases value <;>
-          simp [wcasExec, wcasEnv, wcasRow, ha, hr, hao, hcas, hz, Collection_WriteCas_UPDATE_0, Collection_WriteCas_UPDATE_1,
-            Collection_WriteCas_INSERT_0, Collection_WriteCas_AND_0, Update.exec, Upsert.exec, applySets, SRow.set, SRow.get, E.eval,
+          simp [wcasExec, wcasEnv, wcasRow, ha, hr, hao, hcas, hz, upd_cas_exp_isJSON_revSeqNo_tombstone_value_xattrs__by_cas_collection_key_valueSet, upd_cas_exp_isJSON_revSeqNo_tombstone_value_xattrs__by_cas_collection_key,
+            ups_cas_collection_exp_isJSON_key_revSeqNo_tombstone_value__set_cas_exp_isJSON_revSeqNo_tombstone_value_xattrsN__if_tombstoneIs1, frag_and_cas, Update.exec, Upsert.exec, applySets, SRow.set, SRow.get, E.eval,
             env, enc, encV, encX, ofBool, SV.truthy, SV.same, SV.asText]
 
 end Rosmar.Gen.Sql
